@@ -441,6 +441,10 @@ def binop(I, op, a, b, node):
     names = {ast.Add: ("__add__", "__radd__"), ast.Sub: ("__sub__", "__rsub__"), ast.Mult: ("__mul__", "__rmul__"),
              ast.BitOr: ("__or__", "__ror__"), ast.BitAnd: ("__and__", "__rand__"), ast.Mod: ("__mod__", "__rmod__")}.get(type(op))
     if names:
+        if isinstance(a, SObj) and isinstance(a.fields.get(names[0]), NativeFn):        # abstract object with a modelled operator
+            return a.fields[names[0]].fn(I, [b], {})
+        if isinstance(b, SObj) and isinstance(b.fields.get(names[1]), NativeFn):
+            return b.fields[names[1]].fn(I, [a], {})
         if isinstance(a, SObj) and isinstance(a.cls, ClassInfo):
             m = a.cls.find_method(names[0])
             if m is not None:
